@@ -1352,7 +1352,9 @@ class CombineFCN(object):
         for i in self.fcns:
             g = i.get_grad(x)
             gs.append(g)
-        return sum(gs)
+        # the models return the gradient as a list of tensors: python's sum()
+        # would start from 0 + list
+        return tf.reduce_sum(gs, axis=0)
 
     def grad(self, x={}):
         return self.get_grad(x) + self.gauss_constr.get_constrain_grad()
